@@ -14,10 +14,11 @@ MAX_INLINE_DEPTH = 6
 
 class Schema:
     """Quantified hypothesis kept as a schema and instantiated on the relevant terms of each VC."""
-    def __init__(self, kind, fn, label=""):
+    def __init__(self, kind, fn, label="", derive=None):
         self.kind, self.label = kind, label
         self._fn = fn
         self._cache = {}
+        self.derive = derive      # optional: term -> [(kind, term)] further instantiation terms (Skolem functions of the schema)
 
     def fn(self, t):
         k = t.get_id()
